@@ -626,7 +626,10 @@ func runC14(c *Ctx) {
 		guardHolds := len(conn) >= 1
 		for _, in := range conn {
 			_, a := recvAndArgs(in)
-			if len(a) < 2 || !isBlockTip(a[1]) {
+			// (looking through the result variables of a tip-reading helper
+			// written out here: the placeholder heights of its error exits
+			// never get to the call)
+			if len(a) < 2 || !isBlockTip(liveValue(a[1], in)) {
 				guardHolds = false
 			}
 		}
